@@ -5,7 +5,7 @@ CONSTANTS
   Others = {1}
   Variants = {1, 2}
   MaxLen = 2
-  MaxForeign = 2
+  MaxForeign = 1
   ForeignRows <- MCForeignMix
   Selectors <- MCSelAll
   Groups <- MCGroups
